@@ -198,6 +198,22 @@ def hash_event(r, oid):
             tw, terr = _safe(lambda: hash_hypergraph(reordered_twin(r, obj)))
             if tw is not None:
                 ev["digest_reordered"] = str(tw)
+            # two copies whose contents differ in ONE weight by a tiny amount (same numeric type: float)
+            def close_pair():
+                h = obj.copy()
+                es = list(h.get_edges())
+                if not es or not h.is_weighted():
+                    return None
+                e = es[r.rng.randrange(len(es))]
+                args = (e,) if r.b.kind in ("hg", "dir") else (e[1], e[0])
+                w = float(h.get_weight(*args))
+                h.set_weight(*args, w)
+                a = hash_hypergraph(h)
+                h.set_weight(*args, w + 2.0 ** -34 * max(1.0, abs(w)))
+                return a, hash_hypergraph(h)
+            cp, cerr = _safe(close_pair)
+            if cp is not None:
+                ev["digest_close"] = [str(cp[0]), str(cp[1])]
     return ev
 
 
